@@ -224,20 +224,36 @@ def amount_from_first_line(ctx, res, rule):
             I = A.Interp(P)
             I.lazy_locals = True
             outs = I.explore(lambda J: J.ev(ofs_d, {}))
+            nolb = []
             for o in outs:
                 found = [v for k, v in o["decisions"].items() if k.startswith("is_some(find_prev_line_break_pos(")]
                 if o["exit"] != "fall":
                     ok = False
                     why.append("computing the tag indentation leaves the function (%s) when %s: the block is then not dedented at all" % (o["exit"], "no line break precedes the tag" if found == [False] else "a line break precedes the tag"))
-                elif found == [False] and not (isinstance(o["value"], A.Lit) and o["value"].v == 0):
-                    ok = False
-                    why.append("with no line break before the tag (first line of the file) the tag indentation is `%s`, not 0" % A.show(o["value"])[:60])
+                elif found == [False]:
+                    nolb.append(o)
                 elif found == [True]:
                     lin = linear.linear_of_term(A.show(o["value"]))
                     pterm = [k for k in (lin or {}) if k.startswith("find_prev_line_break_pos(")]
                     if lin is None or len(pterm) != 1 or lin.get(pterm[0]) != -1 or lin.get(sn) != 1 or lin.get("1", 0) != -1 or len(lin) != 3:
                         ok = False
                         why.append("the tag indentation is `%s`, not %s - (previous line break) - 1" % (A.show(o["value"])[:80], sn))
+            # no line break found by the pausing scan: either text precedes the tag on its line (the tag has no indentation of
+            # its own: 0) or the scan ran into the start of the file over blanks only - then the tag is indented by the whole
+            # distance from the start of the file.  A single answer for both cases cannot be right.
+            vals = sorted({A.show(o["value"]) for o in nolb})
+            if nolb and ok:
+                if len(nolb) >= 2 and sn in vals and "0" in vals:
+                    res.holds(rule, fn, "tag-indent-at-start-of-file", "start of the file over blanks only => %s; text before the tag => 0" % sn)
+                elif vals == ["0"]:
+                    res.add(Finding(rule, fn, "tag-indent-at-start-of-file", "when no line break precedes the opening tag its indentation is taken as 0, also when the "
+                                    "tag is indented on the first line of the file (only blanks between the start of the file and the tag): the body is then "
+                                    "dedented by the whole indentation of its first line, lines move left of the tag's column and lose their relative "
+                                    "indentation", loc=T.loc(amount)))
+                else:
+                    ok = False
+                    why.append("with no line break before the tag the tag indentation is %s (expected: 0 when text precedes the tag, %s when only blanks "
+                               "separate it from the start of the file)" % (vals, sn))
         except A.Cannot as e:
             ok = False
             why.append("tag indentation not interpretable: %s" % e)
